@@ -4,7 +4,7 @@ import warnings
 
 import numpy as np
 
-from common import Ctx, LeanDriver, Property, err_kind, list_s, run_property
+from common import Ctx, LeanDriver, Property, err_kind, list_s, rat_s, run_property
 
 warnings.filterwarnings("ignore")
 
@@ -46,7 +46,14 @@ def mk_axis(a):
 def axis_s(a):
     if a[0] == "O":
         return f"O{a[1]}:{list_s(a[2])}"
-    return "U" if a[0] == "U" else f"T{a[1]}"
+    if a[0] == "U":
+        return "U"
+    t = a[1]
+    if t % 3 == 0:
+        return f"N{t}:1:1/2"      # ScanAxis(sampling=0.5, offset=1.0)
+    if t % 3 == 2:
+        return f"N{t}:0:1/4"      # LinearAxis(sampling=0.25)
+    return f"T{t}"
 
 
 def obj_s(spec):
@@ -59,14 +66,7 @@ def canon(o):
     from abtem.core import axes as A
     arr = o.compute().array if o.is_lazy else o.array
     arr = np.asarray(arr)
-    axes = []
-    for a in o.ensemble_axes_metadata:
-        if isinstance(a, A.OrdinalAxis):
-            axes.append(f"O{a.label[1:]}:{list_s(int(v) for v in a.values)}")
-        elif type(a) is A.UnknownAxis:
-            axes.append("U")
-        else:
-            axes.append(f"T{a.label[1:]}")
+    axes = [canon_axis(a) for a in o.ensemble_axes_metadata]
     md = [f"{k[1:]}:{int(v)}" for k, v in o.metadata.items() if isinstance(k, str) and k.startswith("L")]
     data = [int(round(float(v))) for v in arr.reshape(-1)]
     return f"ok {list_s(arr.shape)} {';'.join(axes) if axes else '~'} {list_s(data)} {list_s(md)}"
@@ -76,6 +76,8 @@ def canon_axis(a):
     from abtem.core import axes as A
     if isinstance(a, A.OrdinalAxis):
         return f"O{a.label[1:]}:{list_s(int(v) for v in a.values)}"
+    if isinstance(a, A.LinearAxis):
+        return f"N{a.label[1:]}:{rat_s(a.offset)}:{rat_s(a.sampling)}"
     return "U" if type(a) is A.UnknownAxis else f"T{a.label[1:]}"
 
 
@@ -298,23 +300,6 @@ class C29(Property):
             kinds = [i[0] for i in op["items"]]
             if "l" in kinds and "i" in kinds:
                 return "get-int-with-index-list-advanced-indexing-misaligned"
-            if op["keepdims"]:  # ints become slice(i, i + 1): -1 selects nothing, out-of-range ints are accepted (empty result)
-                dim = 0
-                for i in op["items"]:
-                    if i[0] == "n":
-                        continue
-                    n = spec["shape"][dim] if dim < nd else 1
-                    dim += 1
-                    if i[0] == "i" and (i[1] == -1 or i[1] >= n or i[1] < -n):
-                        return "get-keepdims-int-as-slice-wrong-selection"
-        if k == "expand":
-            ax = op["axes"]
-            if any(a < 0 for a in ax) or list(ax) != sorted(ax):
-                return "expand-dims-negative-or-unsorted-axes-misplaced"
-        if k == "reduce" and op["keepdims"]:
-            ax = [a if a >= 0 else a + nd for a in op["axes"]]
-            if any(0 <= a < len(spec["axes"]) and spec["axes"][a][0] == "O" and spec["shape"][a] != 1 for a in ax):
-                return "reduce-keepdims-over-ordinal-axis-raises"
         return None
 
     def oracle(self, ctx: Ctx, case):
@@ -347,12 +332,12 @@ class C29(Property):
                             return "skip"
                     expect = raw[items]
             elif k == "expand":
-                nd = raw.ndim
+                nd = raw.ndim + len(op["axes"])
                 ax = [a if a >= 0 else a + nd for a in op["axes"]]
-                if any(a > ne + len(ax) - 1 for a in ax):
+                if any(a < 0 or a > ne + len(ax) - 1 for a in ax) or len(set(ax)) != len(ax):
                     expect = "refuse"
                 else:
-                    expect = np.expand_dims(raw, tuple(ax)) if len(set(ax)) == len(ax) and all(0 <= a for a in ax) else "refuse"
+                    expect = np.expand_dims(raw, tuple(ax))
             elif k == "squeeze":
                 nd = raw.ndim
                 ax = range(nd) if op["axes"] is None else [a if a >= 0 else a + nd for a in op["axes"]]
@@ -403,10 +388,13 @@ class C29(Property):
                 return "ordlen"
         if k == "expand":
             nd2 = got.ndim
-            pos = sorted(a if a >= 0 else a + nd2 for a in op["axes"])
-            olds = [canon_axis(a) for i, a in enumerate(r.ensemble_axes_metadata) if i not in pos]
-            if olds != [axis_s(a) for a in spec["axes"]]:
-                ctx.violation("expand-existing-axes-metadata-moved", case, {"axes": [canon_axis(a) for a in r.ensemble_axes_metadata], "new_positions": pos})
+            pos = [a if a >= 0 else a + nd2 for a in op["axes"]]
+            res_axes = [canon_axis(a) for a in r.ensemble_axes_metadata]
+            olds = [x for i, x in enumerate(res_axes) if i not in pos]
+            news = [res_axes[p] for p in pos]
+            want_new = ["U"] * len(pos) if op["new"] is None else [axis_s(a) for a in op["new"]][:len(pos)]
+            if olds != [axis_s(a) for a in spec["axes"]] or news != want_new:
+                ctx.violation("expand-axes-metadata-misplaced", case, {"axes": res_axes, "new_positions": pos, "new": want_new})
                 return "moved"
         if k == "get":
             # metadata of the selected items is carried along
@@ -439,7 +427,10 @@ class C29(Property):
                     want = list(np.array(mk_axis(a).coordinates(n_src))[sel])
                     have = list(out_axes[oi].coordinates(len(want))) if len(want) else []
                     if not np.allclose(want, have):
-                        ctx.violation("get-slice-linear-axis-coordinates-not-updated", case, {"expected": want, "coordinates": have})
+                        fwd = (it.start is None or it.start >= 0) and (it.step is None or it.step >= 1)
+                        key = ("get-forward-slice-linear-axis-coordinates-wrong" if fwd
+                               else "get-backward-or-negative-start-slice-linear-axis-coordinates-not-updated")
+                        ctx.violation(key, case, {"expected": want, "coordinates": have})
                         return "coords"
                 oi += 1
         return "ok"
